@@ -165,6 +165,56 @@ def check_docs(acc, seed):
                 acc.violation(Viol('document', 'import-errors-in-a-non-kern-spine', case, 'none', [e.encoding for e in errs]))
 
 
+SHARED_CELLS = ['A', '1', 'f', 'p', 'la', 'C7', 'I', 'x y', 'ñ', '-', 'la', 'A', '1']
+
+
+def check_type_pairs(acc):
+    """ONE document, two (three) spines of DIFFERENT non-kern types carrying the SAME cell texts (also repeated further down): every cell must get the category
+    of ITS OWN spine type, verbatim - whatever was parsed for the same text in another spine or earlier in the same spine"""
+    import itertools
+    from ..alphabet import OWN_CAT
+    own = lambda h: OWN_CAT.get(h, 'OTHER')
+    combos = [list(p) for p in itertools.permutations(HEADERS, 2)] + [list(HEADERS[i:i + 3]) for i in range(len(HEADERS) - 2)] + [['**kern'] + list(HEADERS[:2]), list(HEADERS[2:4]) + ['**kern']]
+    for hs in combos:
+        rows = ['\t'.join(hs), '\t'.join('=1' for _ in hs)]
+        for k, c in enumerate(SHARED_CELLS):
+            rows.append('\t'.join(('4c' if h == '**kern' else c) for h in hs))
+            if k == 5:
+                rows.append('\t'.join('=2' for _ in hs))
+        rows.append('\t'.join('*-' for _ in hs))
+        text = '\n'.join(rows) + '\n'
+        case = {'header': '+'.join(hs), 'layout': 'type-pair-with-the-same-cells', 'text': text}
+        acc.count('evaluations')
+        acc.count('transitions')
+        acc.nontriv(('pair', tuple(hs)))
+        try:
+            doc, errs = kp.loads(text)
+            out = kp.dumps(doc, spine_types=hs)
+        except Exception as e:  # noqa
+            acc.violation(Viol('document', 'raises', case, None, f'{type(e).__name__}: {str(e)[:80]}'))
+            continue
+        acc.count('traces')
+        bad = []
+        data_stages = [st for st in doc.tree.stages[1:] if st and len(st) == len(hs) and getattr(st[0].token, 'encoding', '')[:1] not in ('*', '=')]
+        exp_cells = list(SHARED_CELLS)
+        if len(data_stages) != len(exp_cells):
+            bad.append(('stage-count', len(data_stages)))
+        else:
+            for st, c in zip(data_stages, exp_cells):
+                for h, n in zip(hs, st):
+                    if h == '**kern':
+                        continue
+                    got = (n.token.category.name, n.token.export())
+                    if got != (own(h), c):
+                        bad.append((h, c, got))
+        if bad:
+            acc.violation(Viol('document', 'cell-does-not-carry-its-own-spine-types-category-verbatim', case, 'own category, verbatim text', bad[:4]))
+        elif errs:
+            acc.violation(Viol('document', 'import-errors-in-a-non-kern-spine', case, 'none', [e.encoding for e in errs][:3]))
+        elif out.split('\n')[2:2 + 6] != rows[2:8]:
+            acc.violation(Viol('document', 'export-does-not-reproduce-the-cells', case, rows[2:8], out.split('\n')[2:8]))
+
+
 def run(ctx):
     C = corpus(ctx.tier)
     ctx.rule = ('9 headers x corpus (grammar alternatives, free text, malformed, look-alikes, all strings of length <= 2 / 3); non-trivial = cell that is shared structure by the independent recogniser')
@@ -172,6 +222,7 @@ def run(ctx):
     ctx.assumptions = ['which strings are shared structure is decided by regular expressions written from the Humdrum syntax (kv/props/c18.py), not by kernpy',
                        'key designations (*C:) may be verbatim own-category tokens or KEY_TOKEN']
     check_docs(ctx, ctx.seed)
+    check_type_pairs(ctx)
     step = 400
     ctx.pmap(_job, [(h, lo, min(lo + step, len(C)), ctx.tier) for h in HEADERS for lo in range(0, len(C), step)], chunksize=1)
     ctx.count('traces', ctx.n.get('evaluations', 0))
@@ -188,6 +239,9 @@ def replay(case):
         if i is not None:
             d = _job((case['header'], i, i + 1, 'thorough'))
             return d.viol
+    elif case.get('layout') == 'type-pair-with-the-same-cells':
+        check_type_pairs(acc)
+        return [v for v in acc.viol if v['case']['header'] == case['header']] or acc.viol
     else:
         check_docs(acc, 0)
         return [v for v in acc.viol if v['case']['header'] == case['header'] and v['case']['layout'] == case['layout']]
